@@ -200,6 +200,7 @@ def storage_lemma(E):
 
 def get_units():
     us = [Unit('C04/layout.blocks-own-their-storage', storage_lemma, ['C04'], functions=[S.SEQ + '.__init__', S.SEQ + '.setValues'])]
+    us.append(S.default_blocks_unit('C04'))
     for fc in (1, 2, 3, 4):
         us.append(Unit('C04/fc%02d.read' % fc, read_lemma(fc), ['C04'], contracts=CONTRACTS, functions=[M.REQ[fc] + '.execute']))
     for fc in (5, 6):
